@@ -82,6 +82,7 @@ class Job:
     native_replay: bool = True
     solver: List[str] = field(default_factory=list)       # e.g. ["--sat-solver","cadical"]
     remove_bodies: List[str] = field(default_factory=list)  # goto-instrument --remove-function-body
+    flags_meta: List[str] = field(default_factory=list)     # driver-level flags, e.g. 'unwind-is-violation'
 
 
 @dataclass
